@@ -6,4 +6,6 @@ INVARIANT ChunkShape
 INVARIANT BoxIsChunk
 INVARIANT SamplerIsChunk
 INVARIANT NoHoles
+INVARIANT SeamsCovered
+INVARIANT SeamIsLocalTie
 CHECK_DEADLOCK FALSE
